@@ -125,7 +125,7 @@ func selfSigned(key *rsa.PrivateKey, subj pkix.Name, nb time.Time) []byte {
 
 func main() {
 	r := mc.NewRun("C01")
-	r.Rule("E5 deviation lattice over a genuine endorsement: every signature bit; payload bits (every 8th quick, every bit thorough); signature replaced (truncated, extended, empty, zero, PKCS#1v1.5, PSS-SHA384, PSS salt 0/max, signed by sibling / foreign / root key); certificate replaced with consistent re-signing (sibling, foreign, self-signed same subject, root itself, garbage, empty); x root sets {nil, empty, right, foreign, right+foreign} x times {NotBefore-1s, NotBefore, mid, NotAfter, NotAfter+1s} x entry points; non-trivial = distinct accepted authentic cases plus distinct (entry point, rejection class)")
+	r.Rule("E5 deviation lattice over a genuine endorsement: every signature bit; payload bits (every 8th quick, every bit thorough); signature replaced (truncated, extended, empty, zero, PKCS#1v1.5, PSS-SHA384, PSS salt 0/max, signed by sibling / foreign / root key); certificate replaced with consistent re-signing (sibling, foreign, self-signed same subject, root itself, garbage, empty, issued with other signature algorithms, look-alike chains); x root sets {nil, empty, right, foreign, right+foreign, leaf-as-root} x times {NotBefore-1s, NotBefore, mid, NotAfter, NotAfter+1s, zero, mid +/- 2^64 ns, mid + 2*2^64 ns, year 1, year 9999} x 16 entry points (two with a second, genuine source present); the first six times again in the wall-clock epoch; two-call sessions (genuine first, then a deviation, same verifier objects); present-time sessions; non-trivial = distinct accepted authentic cases plus distinct (entry point, rejection class)")
 	r.Assume("unforgeability beyond the enumerated deviation classes rests on RSA-PSS/SHA-256")
 	r.Assume("reference verifier: crypto/rsa.VerifyPSS (any salt length) and crypto/x509 chain building, used directly")
 	A, err := fx.NewAuthorityWithSibling(fx.T0, "c01a")
